@@ -224,7 +224,8 @@ def main():
     level = cfg.get("level", "proof")
     failed_n = len(violations) + len(known_hits)
     discharged = max(obligations - failed_n, 0)
-    os.makedirs(os.path.join(VERIF, "evidence"), exist_ok=True)
+    evdir = os.environ.get("VX_EVIDENCE_DIR") or os.path.join(VERIF, "evidence")
+    os.makedirs(evdir, exist_ok=True)
     ev = {
         "property_id": pid, "tier": tier, "seed": seed, "level": level,
         "coverage": {
@@ -248,7 +249,7 @@ def main():
         "wall_s": round(wall, 2),
         "violations": len(violations),
     }
-    with open(os.path.join(VERIF, "evidence", pid + ".json"), "w") as f:
+    with open(os.path.join(evdir, pid + ".json"), "w") as f:
         json.dump(ev, f, indent=1)
     for k, f in known_hits:
         print("KNOWN-FINDING: property=%s %s" % (pid, k["what"]))
